@@ -113,6 +113,12 @@ func (g *rng) genSVal(depth int) sval {
 func (g *rng) genSAttrs(n, depth int) []sattr {
 	var out []sattr
 	for i := 0; i < n; i++ {
+		if depth == 3 && g.chance(1, 12) {
+			// a zero log/slog.Attr (empty key, nil any value) somewhere in the record: whatever is done with
+			// it, the attributes after it are still there
+			out = append(out, sattr{key: "", val: sval{kind: "any:nil", toks: []string{"A", "N"}, v: logslog.AnyValue(nil), exp: gval{kind: "nil", goVal: nil, tok: "N"}}})
+			continue
+		}
 		key := keyPoolLegal[g.intn(len(keyPoolLegal))]
 		if g.chance(1, 8) {
 			if k := g.text(5, false); k != "" {
@@ -401,6 +407,9 @@ func runC15(r *run) {
 					if format == "j" && len(evs) > 0 && utf8.ValidString(want) {
 						var obj map[string]any
 						if json.Unmarshal(evs[0].payload, &obj) == nil {
+							if lvName, _ := obj["level"].(string); lvName != slog.Level(bl).String() {
+								r.violate(violation{What: "the bridge did not emit the record at the bridge's own severity", Input: desc, Expected: slog.Level(bl).String(), Actual: lvName})
+							}
 							if got, _ := obj["msg"].(string); got != want {
 								r.violate(violation{What: "the bridge did not emit the message minus its trailing newline", Input: desc, Expected: fmt.Sprintf("%q", want), Actual: fmt.Sprintf("%q", got)})
 							}
